@@ -29,7 +29,8 @@ LEVELS = {
     ],
 }
 WITNESSES = ['after_fired', 'idle_fired', 'boundary_elapsed_equals_threshold', 'clock_moved_during_step',
-             'idle_reset_by_internal_transition', 'composite_idle_while_child_fires', 'invariant_time_predicates']
+             'idle_reset_by_internal_transition', 'composite_idle_while_child_fires', 'invariant_time_predicates',
+             'postcondition_time_predicates']
 STUBS = ['guards are "after(DA[t])" or "idle(DI[t])" with symbolic real thresholds',
          'action probe A(t) moves the interpreter clock by a symbolic real >= 0 during the step',
          'every code fragment passes the `time` variable it sees to a probe']
@@ -94,6 +95,10 @@ def harness(g, chart, level, canary=False):
     if ('inv', key) not in g.cache:       # contracts are added once per cached chart
         for i in range(cm.n):
             inst.sc.state_for(cm.names[i]).invariants.append('CI(%d, after(DC), idle(DC), time)' % i)
+            # a state's postconditions are evaluated when it has just been exited: its entry/idle times still count
+            inst.sc.state_for(cm.names[i]).postconditions.append('CP(%d, after(DC), idle(DC), time)' % i)
+        if inst.trs:    # ... and so are the postconditions of a transition whose source state was exited
+            inst.trs[0].postconditions.append('CT(0, after(DC), idle(DC), time)')
         g.cache[('inv', key)] = True
     names = cm.names
     cur = {'k': -1}
@@ -111,8 +116,17 @@ def harness(g, chart, level, canary=False):
         inv_seen.append((i, a, d))
         times_seen.append(t)
         return True
+    def CP(i, a, d, t):
+        inst.log.append(('post', i, a, d))
+        times_seen.append(t)
+        return True
+
+    def CT(t_, a, d, t):
+        inst.log.append(('tpost', t_, a, d))
+        times_seen.append(t)
+        return True
     ctx = it.context
-    ctx['TM'], ctx['MOVE'], ctx['CI'] = TM, MOVE, CI
+    ctx['TM'], ctx['MOVE'], ctx['CI'], ctx['CP'], ctx['CT'] = TM, MOVE, CI, CP, CT
     started = []
 
     def on_meta(e):
@@ -133,6 +147,25 @@ def harness(g, chart, level, canary=False):
                   lambda: dict(info(), seen=str(times_seen), now=str(now))),
                  ('step_started_carries_step_time', len(started) == 1 and Eq(started[0], now), info),
                  ('interpreter_time_is_step_time', Eq(it.time, now), info)]
+        # contracts evaluated in the middle of the step: replay the probe log with the reference times as they were
+        # at that moment (entry: entry and idle := now; transition: idle of its source := now after its postconditions)
+        er, ir = dict(entry_ref), dict(idle_ref)
+        for e in list(inst.log):
+            if e[0] == 'en':
+                er[cm.idx[e[1]]] = ir[cm.idx[e[1]]] = now
+            elif e[0] == 'act' and e[1] != 0:
+                ir[cm.tr[e[1]][0]] = now
+            elif e[0] == 'post':
+                _, i, a, d = e
+                conds.append(('after_in_state_postcondition', Iff(a, now - DC >= er.get(i, now)), lambda i=i: dict(info(), state=names[i])))
+                conds.append(('idle_in_state_postcondition', Iff(d, now - DC >= ir.get(i, now)), lambda i=i: dict(info(), state=names[i])))
+                g.witness('postcondition_time_predicates')
+            elif e[0] == 'tpost':
+                _, t_, a, d = e
+                src_ = cm.tr[t_][0]
+                conds.append(('after_in_transition_postcondition', Iff(a, now - DC >= er.get(src_, now)), info))
+                conds.append(('idle_in_transition_postcondition', Iff(d, now - DC >= ir.get(src_, now)), info))
+                ir[src_] = now
         if st is not None:
             conds.append(('macrostep_time_is_step_time', Eq(st.time, now), info))
             for ms in st.steps:
